@@ -385,7 +385,9 @@ def gen_case(rng):
             # what an injected backend failure looks like (the built-in TimeoutError is what deadlines of coroutine backends raise)
             'fail_kind': rng.choice(['injected', 'injected', 'timeout']),
             # the chunk producer's own failure: a source file vanishes while the stream is being read
-            'producer_fail': nfiles >= 2 and rng.random() < 0.15}
+            'producer_fail': nfiles >= 2 and rng.random() < 0.15,
+            # a file-writer thread's own failure during restore: one write into the target fails (EIO) while every backend call succeeds
+            'writer_fail': rng.choice([None, None, None, None, None, 0, 1, 2, 3])}
 
 
 def make_tree(case, root: Path):
@@ -582,6 +584,20 @@ def run_case(case, wd: Path, chooser_factory):
                             mk_wait.pop(key, None)
                 return orig_mkdir(path, *a, **k)
             os.mkdir = mkdir_together
+            writer_fail = case.get('writer_fail') if gate.fail_at is None and not case.get('producer_fail') else None
+            orig_wfp, wf_count, wf_fired = R.Repository._write_file_part, [0], []
+            if writer_fail is not None:
+                wf_lock = threading.Lock()
+
+                def failing_write(self_, path, data, offset, _orig=orig_wfp):
+                    with wf_lock:
+                        idx = wf_count[0]
+                        wf_count[0] += 1
+                    if idx == writer_fail:
+                        wf_fired.append(1)
+                        raise OSError(5, 'injected write failure in a file-writer thread')
+                    return _orig(self_, path, data, offset)
+                R.Repository._write_file_part = failing_write
             t = asyncio.ensure_future(repo2.restore(path=out))
             try:
                 await asyncio.wait_for(drive(gate, t, chooser), 25)
@@ -591,7 +607,17 @@ def run_case(case, wd: Path, chooser_factory):
                 return
             finally:
                 os.mkdir = orig_mkdir
+                R.Repository._write_file_part = orig_wfp
             exc = t.exception()
+            if wf_fired:
+                # sequential semantics: a part of a file could not be written, so the command fails (with that error)
+                obs['writer_fail'] = True
+                await _slots_back(repo2, N, obs, 'restore', gate)
+                if exc is None:
+                    obs['problems'].append(('a write into a restored file failed (EIO in a file-writer thread) yet restore reported success: the file is left with a hole', 'swallowed'))
+                elif not isinstance(exc, OSError):
+                    obs['problems'].append((f'restore raised {type(exc).__name__} when a file write failed (expected the OSError)', 'spurious_error'))
+                return
             obs['restore_max_outstanding'] = gate.max_outstanding
             obs['rendezvous_met'] = proxy.met
             await _slots_back(repo2, N, obs, 'restore', gate)
@@ -729,6 +755,8 @@ def check(case, ctx, rep: Report, chooser_factory, tag):
     rep.count('flavour=' + case['flavour'])
     rep.count('fail=' + ('down' if case.get('down_from') is not None else 'none' if case['fail_at'] is None else case['fail_phase']))
     rep.count('rendezvous_met', obs.get('rendezvous_met', 0))
+    if obs.get('writer_fail'):
+        rep.count('writer_failure_cases')
     if obs.get('producer_fail'):
         rep.count('producer_failure_cases')
     rep.count('fail_kind=' + str(case.get('fail_kind', 'injected')))
